@@ -19,7 +19,7 @@ CONSTANTS
   ParserContinuesAfterShortRange = FALSE
   Budget0PlansNothing = FALSE
   TailInitPersistsZero = FALSE
-CONSTRAINT GuardDeadOnly
+CONSTRAINT NoGuard
 INVARIANTS RefinesCex
 VIEW View
 CHECK_DEADLOCK FALSE
